@@ -320,7 +320,8 @@ def run(ck):
                "per a length, two offset units, offset x delta, delta per kelvin ...): predicates, pairs of equal "
                "dimensionality, numbers, powers, conversions. 5 string parsing under both default_as_delta values. 6 log "
                "units: every ordered pair of log units and related linear units — the conversion plan exactly, the float "
-               "value |err| <= 1e-12*max(1,|expected|) against a 60-digit evaluation (a test), same-unit + - and * 2. 7 ONE registry with autoconvert_offset_to_baseunit switched at run time (built in "
+               "value |err| <= 1e-12*max(1,|expected|) against a 60-digit evaluation (a test), same-unit + - and * 2, == / != against the logarithmic map incl. both magnitudes zero. == and != of the exact streams "
+               "are judged by root-unit values also when both magnitudes are exactly zero (scalar, array, every mode). 7 ONE registry with autoconvert_offset_to_baseunit switched at run time (built in "
                "either mode; Fraction and float): random sequences of conversions of compound containers, single units, "
                "root units, powers, arithmetic — each answer must equal that of a never-switched registry in the current "
                "mode (and the model's); a difference is shrunk to a short reproducing sequence. "
@@ -439,8 +440,8 @@ def run(ck):
                    f"{a.name} -> {b.name} -> {a.name} of {xs[0]} gives {back}", rp)
 
     # ------------------------------------------------------------ binary operators between quantities
-    BIN = ["add", "sub", "mul", "div", "lt", "le", "gt", "ge", "eq"]
-    PYOP = {"add": "+", "sub": "-", "mul": "*", "div": "/", "lt": "<", "le": "<=", "gt": ">", "ge": ">=", "eq": "=="}
+    BIN = ["add", "sub", "mul", "div", "lt", "le", "gt", "ge", "eq", "ne"]
+    PYOP = {"add": "+", "sub": "-", "mul": "*", "div": "/", "lt": "<", "le": "<=", "gt": ">", "ge": ">=", "eq": "==", "ne": "!="}
 
     def apply_bin(op, qa, qb, inplace):
         if op == "add":
@@ -471,6 +472,8 @@ def run(ck):
             return qa > qb
         if op == "ge":
             return qa >= qb
+        if op == "ne":
+            return qa != qb
         return qa == qb
 
     def do_bin(op, ua, ub, mode, arr, stream, xs=None, ys=None):
@@ -488,7 +491,7 @@ def run(ck):
             # an array operation raises as a whole / takes whole-array shortcuts: keep the elements uniform
             if op == "div":
                 ys = [y if y != 0 else F(1) for y in ys]
-            if op == "eq" and not all(x == 0 and y == 0 for x, y in zip(xs, ys)):
+            if op in ("eq", "ne") and not all(x == 0 and y == 0 for x, y in zip(xs, ys)):
                 xs = [x if (x != 0 or y != 0) else F(1) for x, y in zip(xs, ys)]
         if ua is None or ub is None:
             # number operands are scalars (an array of numbers would broadcast: same rule elementwise)
@@ -518,8 +521,10 @@ def run(ck):
                 term = f"KAddSub {coq_bool(auto)} {coq_bool(inplace)} {coq_bool(op == 'sub')} {A} {B} {tag} {coq_obs(o, i)}"
             elif op in ("mul", "div"):
                 term = f"KMulDiv {coq_bool(auto)} {coq_bool(inplace)} {coq_bool(op == 'div')} {A} {B} {tag} {coq_obs(o, i)}"
-            elif op == "eq":
-                term = f"KEq {coq_bool(auto)} {A} {B} {coq_obsb(o, i)}"
+            elif op in ("eq", "ne"):
+                # __ne__ is "not __eq__" (elementwise): the model's __eq__ must give the negation of what != returned
+                oe = o if (op == "eq" or o.kind != "bool") else Out("bool", [not v for v in o.vals])
+                term = f"KEq {coq_bool(auto)} {A} {B} {coq_obsb(oe, i)}"
             else:
                 term = f"KCmp {coq_bool(auto)} C{op.capitalize()} {A} {B} {coq_obsb(o, i)}"
             add(term, dict(rp, observed=repr(o), branch=tag),
@@ -592,14 +597,21 @@ def run(ck):
                         oracle(o.kind == "val" and o.units == eu and o.vals == ev, f"table:muldiv-autoconvert-root:{key}",
                                f"autoconvert: {a.name} {PYOP[op]} {b.name} must be the operation on root-unit operands "
                                f"{[str(v) for v in ev]} {eu}, got {o}", rp)
-        elif op == "eq":
-            if all(x == 0 for x in xs) and all(y == 0 for y in ys):
-                return      # the both-zero shortcut belongs to property C05 (F1)
+        elif op in ("eq", "ne"):
+            # the value of == / != is fixed by the defining maps: equal iff the root-unit values are equal — also
+            # when both magnitudes are exactly zero (0 degC is 273.15 K, not 0 K); an offset never equals a delta
+            neg = op == "ne"
+            zz = ":both-zero" if all(x == 0 for x in xs) and all(y == 0 for y in ys) else ""
             if "delta" in (ka, kb) and "offset" in (ka, kb):
-                oracle(o.kind == "bool" and not any(o.vals), f"table:eq-offset-delta:{key}", f"offset == delta must be False, got {o}", rp)
+                ev = [neg] * len(xs)
+                oracle(o.kind == "bool" and o.vals == ev, f"table:{op}-offset-delta{zz}:{key}",
+                       f"{[str(x) for x in xs]} {a.name} {PYOP[op]} {[str(y) for y in ys]} {b.name} (offset vs delta) must be {ev}, got {o}", rp)
             else:
-                ev = [(a.root(x) if ka != "delta" else a.S * x) == (b.root(y) if kb != "delta" else b.S * y) for x, y in zip(xs, ys)]
-                oracle(o.kind == "bool" and o.vals == ev, f"table:eq:{key}", f"== expected {ev}, got {o}", rp)
+                ev = [((a.root(x) if ka != "delta" else a.S * x) == (b.root(y) if kb != "delta" else b.S * y)) != neg for x, y in zip(xs, ys)]
+                oracle(o.kind == "bool" and o.vals == ev, f"table:{op}{zz}:{key}",
+                       f"{[str(x) for x in xs]} {a.name} {PYOP[op]} {[str(y) for y in ys]} {b.name}: in kelvin these are "
+                       f"{[str(a.root(x) if ka != 'delta' else a.S * x) for x in xs]} and {[str(b.root(y) if kb != 'delta' else b.S * y) for y in ys]}, "
+                       f"expected {ev}, got {o}", rp)
         else:
             if "delta" in (ka, kb) and "offset" in (ka, kb):
                 return      # undocumented; correspondence only
@@ -632,12 +644,17 @@ def run(ck):
             continue
         x = mags(0)[0]
         y = (a.root(x) - (b.O if b.kind == "offset" else 0)) / b.S
-        for op in ("eq", "le", "lt"):
+        for op in ("eq", "ne", "le", "lt"):
             xs, ys, o, rp, _ = do_bin(op, a.name, b.name, rng.choice(modes_all), False, "bundled", [x], [y])
             table_oracles(op, a, b, xs, ys, o, rp, False)
-    # both magnitudes zero (the shortcut of __eq__)
-    for a, b in itertools.product(defaults + gens[:6], defaults + gens[:6]):
-        do_bin("eq", a.name, b.name, rng.choice(modes_all), False, "bundled", [F(0)], [F(0)])
+    # both magnitudes exactly zero (__eq__ has a shortcut for this), scalar and array, every mode in turn
+    zpool = defaults + gens[:6]
+    for i, (a, b) in enumerate(itertools.product(zpool, zpool)):
+        for j, (op, arr) in enumerate((("eq", False), ("ne", False), ("eq", True), ("ne", True))):
+            for mode in (modes_all if not (a.generated or b.generated) else [modes_all[(i + j) % 4]]):
+                n = 2 if arr else 1
+                xs, ys, o, rp, _ = do_bin(op, a.name, b.name, mode, arr, "zero", [F(0)] * n, [F(0)] * n)
+                table_oracles(op, a, b, xs, ys, o, rp, mode[0])
 
     # 2. pairs with a generated unit
     pairs = [(a, b) for a in units for b in units if a.generated or b.generated]
@@ -829,7 +846,7 @@ def run(ck):
                            f"conv-compound-ignores-units:{'auto' if mode[0] else 'noauto'}",
                            f"{xs[0]} {uname(c)} -> {uname(c2)} = {o.vals[0]}, the same number as -> {uname(c3)}: the length unit was ignored", rp)
         # a number as the other operand (dimensionless containers reach the "number, self dimensionless" branch)
-        for op in ("add", "sub", "mul", "div", "eq", "lt"):
+        for op in ("add", "sub", "mul", "div", "eq", "ne", "lt"):
             mode = rng.choice(modes_all)
             xs, ys, o, rp, tag = do_bin(op, c, None, mode, rng.random() < 0.25, "compound-number")
             if kind == "ambig" and op in ("mul", "div"):
@@ -1210,6 +1227,64 @@ def log_stream(ck, rng, thorough, add, oracle):
                     oracle(abs(back - xs[0]) <= 1e-9 * max(1.0, abs(xs[0])), f"log-conv-inverse:{na},{nb}",
                            f"{xs[0]} {na} -> {nb} -> {na} = {back}", rp)
     ck.extra["log_worst_rel_error"] = worst
+    # == / != with a logarithmic operand take their value from the logarithmic map — in particular when both
+    # magnitudes are exactly zero (0 dBm is 1 mW, 0 dB is the number 1): scalar and array, both modes
+    import numpy as np
+
+    def lin_factor(pa, na, pb, nb):
+        ra = ({pa[4]: 1} if pa[4] else {}) if pa else ({fr.get_name(na): 1} if na != "dimensionless" else {})
+        rb = ({pb[4]: 1} if pb[4] else {}) if pb else ({fr.get_name(nb): 1} if nb != "dimensionless" else {})
+        try:
+            return F(fr.convert(F(1), fr.UnitsContainer({fr.get_name(k): 1 for k in ra}), fr.UnitsContainer({fr.get_name(k): 1 for k in rb})))
+        except pint.errors.DimensionalityError:
+            return None
+    for (na, pa), (nb, pb) in itertools.product(names, names):
+        if (pa is None and pb is None) or na == nb:
+            continue
+        fac = lin_factor(pa, na, pb, nb)
+        for x, y in ((0.0, 0.0), (0.0, 1.0), (float(rng.randint(1, 40)), 0.0)):
+            if pa is None and x < 0:
+                continue
+            # a's value expressed in b's unit, by the defining maps (60 digits)
+            if fac is None:
+                conv = None
+            elif pa is None and pb is not None and x == 0:
+                conv = "-inf"           # log of zero: certainly not equal to a finite y
+            else:
+                v = ctx.multiply(to_lin(pa, D(x)) if pa else D(x), dec(fac))
+                conv = from_lin(pb, v) if pb else v
+            if conv is None or conv == "-inf":
+                expect = False
+            elif abs(conv - D(y)) > D("1e-9") * max(D(1), abs(conv)):
+                expect = False
+            elif conv == D(y) and x == 0:
+                expect = True           # e.g. 0 dB == 0 Np: log(1) = 0 exactly
+            else:
+                continue                # equality up to rounding: no claim on a float comparison
+            for auto in (False, True):
+                reg = fregs[auto]
+                for arr in (False, True):
+                    for op in ("eq", "ne"):
+                        qa = reg.Quantity(np.array([x, x]) if arr else x, na)
+                        qb = reg.Quantity(np.array([y, y]) if arr else y, nb)
+                        try:
+                            import warnings
+                            with warnings.catch_warnings():
+                                warnings.simplefilter("ignore")
+                                r = (qa == qb) if op == "eq" else (qa != qb)
+                            got = [bool(v) for v in (r if arr else [r])]
+                        except Exception as e:  # noqa: BLE001
+                            got = "raises " + type(e).__name__
+                        want = [expect != (op == "ne")] * (2 if arr else 1)
+                        ck.case(key=("logeq", na, nb, x, y, auto, arr, op))
+                        ck.count("log:eq")
+                        zz = ":both-zero" if x == 0 and y == 0 else ""
+                        oracle(got == want, f"log-{op}{zz}:{na},{nb}",
+                               f"{x} {na} {'==' if op == 'eq' else '!='} {y} {nb} ({'array' if arr else 'scalar'}, autoconvert={auto}): "
+                               f"{x} {na} is {('not convertible' if conv is None else conv if conv == '-inf' else float(conv))} {nb}, "
+                               f"expected {want}, got {got}",
+                               {"op": "log-" + op, "a": [x, na], "b": [y, nb], "auto": auto, "array": arr})
+
     # arithmetic on log quantities (integer-valued floats: + and - are exact)
     for name, p in [(p[0], p) for p in logs]:
         cn = fr.get_name(name)
@@ -1266,7 +1341,7 @@ def replay(ck, path):
             fresh.define(ln)
         print("a fresh registry in the last mode:", perform_step(fresh, rp["steps"][-1], exactly))
         return 0
-    if "op" not in rp or rp["op"] in ("path", "parse", "log-plan", "log-conv", "predicates", "mode-sequence-step"):
+    if "op" not in rp or rp["op"] in ("path", "parse", "log-plan", "log-conv", "log-eq", "log-ne", "predicates", "mode-sequence-step"):
         return 0
     mode = rp.get("mode", [False, True])
     reg = pint.UnitRegistry(non_int_type=F, cache_folder=None, autoconvert_offset_to_baseunit=mode[0], default_as_delta=mode[1])
@@ -1300,7 +1375,7 @@ def replay(ck, path):
             b = q(rp.get("b"))
             import operator
             r = {"add": operator.add, "sub": operator.sub, "mul": operator.mul, "div": operator.truediv, "lt": operator.lt,
-                 "le": operator.le, "gt": operator.gt, "ge": operator.ge, "eq": operator.eq}[op](a, b)
+                 "le": operator.le, "gt": operator.gt, "ge": operator.ge, "eq": operator.eq, "ne": operator.ne}[op](a, b)
         print("observed now:", getattr(r, "_magnitude", r), dict(getattr(r, "_units", {})))
     except Exception as e:  # noqa: BLE001
         print("observed now: raises", type(e).__name__)
